@@ -144,7 +144,7 @@ func (n *NonNil) NilImpliesErr(f *ssa.Function) bool {
 			continue
 		}
 		rets++
-		if n.Value(ret.Results[0], b, 0) || n.ErrSetAt(b) {
+		if n.Value(RetVal(ret, 0), b, 0) || n.ErrSetAt(b) || deadOnNilError(b) {
 			continue
 		}
 		ok = n.fail("a return of " + f.Name() + " may hand back nil while the error field is clear")
@@ -180,11 +180,22 @@ func (n *NonNil) Value(v ssa.Value, at *ssa.BasicBlock, depth int) bool {
 		calls := 0
 		for _, f := range n.Funcs {
 			for _, cs := range Calls(f) {
-				if StaticCallee(cs.Common) != fn || idx < 0 || idx >= len(cs.Common.Args) {
+				var arg ssa.Value
+				switch {
+				case idx < 0:
+				case StaticCallee(cs.Common) == fn && idx < len(cs.Common.Args):
+					arg = cs.Common.Args[idx]
+				case cs.Common.IsInvoke() && fn.Signature.Recv() != nil && cs.Common.Method.Name() == fn.Name() && idx >= 1 && idx-1 < len(cs.Common.Args):
+					// a call through an interface the method's receiver type implements
+					if it, ok := cs.Common.Value.Type().Underlying().(*types.Interface); ok && types.Implements(fn.Signature.Recv().Type(), it) {
+						arg = cs.Common.Args[idx-1]
+					}
+				}
+				if arg == nil {
 					continue
 				}
 				calls++
-				if !n.Value(cs.Common.Args[idx], cs.Block, depth+1) {
+				if !n.Value(arg, cs.Block, depth+1) {
 					return n.fail("the caller " + f.Name() + " may pass nil: " + n.Why)
 				}
 			}
@@ -196,7 +207,12 @@ func (n *NonNil) Value(v ssa.Value, at *ssa.BasicBlock, depth int) bool {
 		return n.fail("parameter without a call site in the package")
 	case *ssa.ChangeInterface:
 		return n.Value(x.X, at, depth+1)
+	case *ssa.ChangeType:
+		return n.Value(x.X, at, depth+1)
 	case *ssa.Phi:
+		if n.phiOfPairs(x, at, depth) {
+			return true
+		}
 		for i, e := range x.Edges {
 			if !n.Value(e, x.Block().Preds[i], depth+1) {
 				return guardedNonNil(v, at)
@@ -210,6 +226,18 @@ func (n *NonNil) Value(v ssa.Value, at *ssa.BasicBlock, depth int) bool {
 					return true
 				}
 			}
+		}
+	case *ssa.Extract:
+		if errV, g := pairOf(x); errV != nil && g != nil {
+			if guardedNil(errV, at) && n.PairContract(g, depth) {
+				return true
+			}
+		}
+	case *ssa.TypeAssert:
+		// v.(T) without comma-ok yields a non-nil value or panics (a census site of its own) - unless T is an
+		// interface and … no: asserting a nil interface to any type panics
+		if !x.CommaOk {
+			return true
 		}
 	case *ssa.Call:
 		name := CalleeName(x.Common())
@@ -321,3 +349,246 @@ func (n *NonNil) fieldNonNil(fa *ssa.FieldAddr, depth int) bool {
 }
 
 var nonInterfaceKinds = []string{"Bool", "Int", "Int8", "Int16", "Int32", "Int64", "Uint", "Uint8", "Uint16", "Uint32", "Uint64", "Uintptr", "Float32", "Float64", "Complex64", "Complex128", "Array", "Chan", "Func", "Map", "Ptr", "Pointer", "Slice", "String", "Struct", "UnsafePointer"}
+
+// GlobalWrite is a write to package-level state: a store to a package variable (or to a field / element of
+// one), or an update / delete of a map held in one.
+type GlobalWrite struct {
+	Instr  ssa.Instruction
+	Global *ssa.Global
+	What   string
+}
+
+func rootGlobal(v ssa.Value, d int) *ssa.Global {
+	if d > 6 {
+		return nil
+	}
+	switch x := v.(type) {
+	case *ssa.Global:
+		return x
+	case *ssa.FieldAddr:
+		return rootGlobal(x.X, d+1)
+	case *ssa.IndexAddr:
+		return rootGlobal(x.X, d+1)
+	case *ssa.UnOp:
+		if x.Op == token.MUL {
+			return rootGlobal(x.X, d+1)
+		}
+	case *ssa.Slice:
+		return rootGlobal(x.X, d+1)
+	}
+	return nil
+}
+
+// GlobalWrites lists the writes to package-level state in fns.
+func GlobalWrites(fns []*ssa.Function) []GlobalWrite {
+	var out []GlobalWrite
+	for _, f := range fns {
+		for _, b := range f.Blocks {
+			for _, in := range b.Instrs {
+				switch x := in.(type) {
+				case *ssa.Store:
+					if g := rootGlobal(x.Addr, 0); g != nil {
+						out = append(out, GlobalWrite{in, g, "store"})
+					}
+				case *ssa.MapUpdate:
+					if g := rootGlobal(x.Map, 0); g != nil {
+						out = append(out, GlobalWrite{in, g, "map update"})
+					}
+				case ssa.CallInstruction:
+					if CalleeName(x.Common()) == "builtin:delete" && len(x.Common().Args) > 0 {
+						if g := rootGlobal(x.Common().Args[0], 0); g != nil {
+							out = append(out, GlobalWrite{in, g, "map delete"})
+						}
+					}
+				}
+			}
+		}
+	}
+	return out
+}
+
+// pairOf: x is result 0 of a call returning (T, error) to a function with a body; returns the error result's
+// Extract and the callee.
+func pairOf(x *ssa.Extract) (ssa.Value, *ssa.Function) {
+	call, ok := x.Tuple.(*ssa.Call)
+	if !ok || x.Index != 0 {
+		return nil, nil
+	}
+	tup, ok := call.Type().(*types.Tuple)
+	if !ok || tup.Len() != 2 || !isErrorType(tup.At(1).Type()) {
+		return nil, nil
+	}
+	g := StaticCallee(call.Common())
+	if g == nil || len(g.Blocks) == 0 {
+		return nil, nil
+	}
+	for _, rf := range *call.Referrers() {
+		if e, ok := rf.(*ssa.Extract); ok && e.Index == 1 {
+			return e, g
+		}
+	}
+	return nil, nil
+}
+
+// guardedNil: `at` is reached only through the is-nil edge of a test of v.
+func guardedNil(v ssa.Value, at *ssa.BasicBlock) bool {
+	fn := at.Parent()
+	for _, i := range Ifs(fn) {
+		cd, ok := Classify(i)
+		if !ok || cd.Kind != "nil" || cd.X != v {
+			continue
+		}
+		if !Reach(fn, map[Edge]bool{cd.EdgeWhen(true): true})[at] {
+			return true
+		}
+	}
+	return false
+}
+
+// PairContract: every return of g (results (T, error)) has a non-nil error or a non-nil value.
+func (n *NonNil) PairContract(g *ssa.Function, depth int) bool {
+	if n.fnMemo == nil {
+		n.fnMemo = map[*ssa.Function]int{}
+	}
+	switch n.fnMemo[g] {
+	case 1:
+		return true
+	case 2, 3:
+		return false
+	}
+	n.fnMemo[g] = 3
+	ok, rets := true, 0
+	for _, b := range g.Blocks {
+		ret, isRet := b.Instrs[len(b.Instrs)-1].(*ssa.Return)
+		if !isRet || len(ret.Results) != 2 {
+			continue
+		}
+		rets++
+		if n.errValueNonNil(RetVal(ret, 1), b) || n.Value(RetVal(ret, 0), b, depth+1) {
+			continue
+		}
+		ok = n.fail("a return of " + g.Name() + " may hand back (nil, nil): " + n.Why)
+		break
+	}
+	if ok && rets > 0 {
+		n.fnMemo[g] = 1
+		n.Notes = append(n.Notes, g.Name()+" returns a nil value only together with an error")
+		return true
+	}
+	n.fnMemo[g] = 2
+	return false
+}
+
+// phiOfPairs: x merges result 0 of several (T, error) calls, a sibling phi merges their error results in the same
+// order, and `at` lies behind the is-nil edge of a test of that sibling.
+func (n *NonNil) phiOfPairs(x *ssa.Phi, at *ssa.BasicBlock, depth int) bool {
+	var errs []ssa.Value
+	var fns []*ssa.Function
+	for _, e := range x.Edges {
+		ex, ok := e.(*ssa.Extract)
+		if !ok {
+			return false
+		}
+		ev, g := pairOf(ex)
+		if ev == nil {
+			return false
+		}
+		errs = append(errs, ev)
+		fns = append(fns, g)
+	}
+	for _, in := range x.Block().Instrs {
+		y, ok := in.(*ssa.Phi)
+		if !ok {
+			break
+		}
+		if y == x || len(y.Edges) != len(errs) {
+			continue
+		}
+		same := true
+		for i := range errs {
+			if y.Edges[i] != errs[i] {
+				same = false
+			}
+		}
+		if !same || !guardedNil(y, at) {
+			continue
+		}
+		for _, g := range fns {
+			if !n.PairContract(g, depth) {
+				return false
+			}
+		}
+		return true
+	}
+	return false
+}
+
+// alwaysNilErr: the error value is nil on every execution - a nil constant, the error result of io.ReadAll over
+// an in-memory reader (bytes.Reader, bytes.Buffer, strings.Reader never fail), or the error result of a
+// repository function all of whose live returns are such.
+func alwaysNilErr(v ssa.Value, depth int) bool {
+	if depth > 4 {
+		return false
+	}
+	switch x := v.(type) {
+	case *ssa.Const:
+		return x.Value == nil
+	case *ssa.Phi:
+		for _, e := range x.Edges {
+			if !alwaysNilErr(e, depth+1) {
+				return false
+			}
+		}
+		return true
+	case *ssa.Extract:
+		call, ok := x.Tuple.(*ssa.Call)
+		if !ok {
+			return false
+		}
+		name := CalleeName(call.Common())
+		if (name == "io.ReadAll" || name == "io/ioutil.ReadAll") && len(call.Call.Args) == 1 {
+			t := call.Call.Args[0].Type()
+			if mi, ok := call.Call.Args[0].(*ssa.MakeInterface); ok {
+				t = mi.X.Type()
+			}
+			switch t.String() {
+			case "*bytes.Reader", "*bytes.Buffer", "*strings.Reader":
+				return true
+			}
+			return false
+		}
+		g := StaticCallee(call.Common())
+		if g == nil || len(g.Blocks) == 0 {
+			return false
+		}
+		n := 0
+		for _, b := range g.Blocks {
+			ret, isRet := b.Instrs[len(b.Instrs)-1].(*ssa.Return)
+			if !isRet || x.Index >= len(ret.Results) {
+				continue
+			}
+			n++
+			if deadOnNilError(b) || alwaysNilErr(RetVal(ret, x.Index), depth+1) {
+				continue
+			}
+			return false
+		}
+		return n > 0
+	}
+	return false
+}
+
+// deadOnNilError: the block is reachable only through the not-nil edge of a test of an error that is always nil.
+func deadOnNilError(at *ssa.BasicBlock) bool {
+	fn := at.Parent()
+	for _, i := range Ifs(fn) {
+		cd, ok := Classify(i)
+		if !ok || cd.Kind != "nil" || !alwaysNilErr(cd.X, 0) {
+			continue
+		}
+		if !Reach(fn, map[Edge]bool{cd.EdgeWhen(false): true})[at] {
+			return true
+		}
+	}
+	return false
+}
